@@ -277,6 +277,7 @@ pub fn main_with(entries: Vec<GrammarEntry>) {
     }
     // optional thinning of the work list (used by the slow interpreters)
     let offset = args.u64("rule-offset", 0) as usize;
+    let max_input_len: Option<usize> = args.get("max-input-len").and_then(|s| s.parse::<usize>().ok());
     if let Some(max) = args.get("max-rules").and_then(|s| s.parse::<usize>().ok()) {
         items = items.into_iter().skip(offset).take(max).collect();
     }
@@ -313,6 +314,11 @@ pub fn main_with(entries: Vec<GrammarEntry>) {
                     }]
                 }
                 None => cases_for(&model, r.name, &cfg, &mut rng),
+            };
+            // interpreters that are four orders of magnitude slower (Miri) bound the work by input size
+            let cases: Vec<CaseIn> = match max_input_len {
+                Some(m) => cases.into_iter().filter(|c| c.pre.len() + c.s.len() + c.post.len() <= m).collect(),
+                None => cases,
             };
             *families_seen.lock().unwrap().entry(e.family.to_string()).or_default() += cases.len() as u64;
             l.count("rules_driven");
